@@ -35,7 +35,7 @@ Theorem C14_spawn_holds : C14_spawn_statement.
 Proof. exact spawn_statement_holds. Qed.
 Print Assumptions C14_spawn_holds.
 
-(* (2) holds for the code as it is (after fix 06a16cd: the tests use >=) *)
+(* (2) holds for the code as it is (after fix 1709e08: the tests use >=) *)
 Theorem C14_call_holds : C14_call_statement.
 Proof. exact call_statement_holds. Qed.
 Print Assumptions C14_call_holds.
